@@ -18,7 +18,9 @@ EXPLANATION = (
     "(top-p-nonempty) the top-P threshold is max(p, f32::MIN_POSITIVE), the cumulative sum starts at zero and the loop is "
     "guarded by cum < threshold && k < len, so the first candidate is always kept for a non-empty input; the result is "
     "truncated to the counted k. (chain) Chain::filter folds every filter exactly once in order with the caller's prev_tokens. "
-    "That the K kept are the K largest and that the kept prefix is the shortest are value-level and not decided.")
+    "(order) TopK replaces its K-th entry only under total_cmp and skips a SIMD chunk only if all lanes are < the K-th value; "
+    "TopP / Sort sort every candidate of the input. That the K kept are the K largest and that the kept prefix is the shortest "
+    "are value-level and not decided.")
 ASSUMPTIONS = ["a SIMD vector length (BitOps::len) is non-zero", "Vec/slice/iterator std semantics"]
 CRATE = 'rten_generate'
 FILTER_TRAIT = 'rten_generate::filter::LogitsFilter'
